@@ -4,7 +4,6 @@
 #![allow(unused, clippy::all)]
 use konst::{iter, option, result};
 
-// ---------------------------------------------------------------- iterator DSL (C10)
 pub const fn it_fold_filter_map(xs: &[u32]) -> u32 {
     iter::eval!(xs, copied(), filter(|x| *x % 2 == 0), map(|x| x / 2), fold(0u32, |a, b| a ^ b))
 }
@@ -61,7 +60,6 @@ pub const fn it_for_each_sum(xs: &[u32]) -> u32 {
     s
 }
 
-// ---------------------------------------------------------------- option / result / min-max macros (C19)
 pub const fn op_unwrap_or(o: Option<u32>, d: u32) -> u32 { option::unwrap_or!(o, d) }
 pub const fn op_unwrap_or_else(o: Option<u32>, d: u32) -> u32 { option::unwrap_or_else!(o, || d + 1) }
 pub const fn op_ok_or(o: Option<u32>, e: u8) -> Result<u32, u8> { option::ok_or!(o, e) }
@@ -86,3 +84,45 @@ pub const fn mm_min(a: u32, b: u32) -> u32 { konst::min!(a, b) }
 pub const fn mm_max(a: u32, b: u32) -> u32 { konst::max!(a, b) }
 pub const fn mm_min_by_key(a: (u32, u32), b: (u32, u32)) -> (u32, u32) { konst::min_by_key!(a, b, |p| p.0) }
 pub const fn mm_max_by_key(a: (u32, u32), b: (u32, u32)) -> (u32, u32) { konst::max_by_key!(a, b, |p| p.0) }
+
+use konst::{parser_method, Parser};
+pub const fn pm_strip_prefix(mut p: Parser<'_>) -> (u32, Parser<'_>) {
+    let v = parser_method! {p, strip_prefix;
+        "ab" | "a" => 0u32,
+        "b" => 1,
+        _ => 9
+    };
+    (v, p)
+}
+pub const fn pm_strip_suffix(mut p: Parser<'_>) -> (u32, Parser<'_>) {
+    let v = parser_method! {p, strip_suffix;
+        "ab" | "a" => 0u32,
+        "b" => 1,
+        _ => 9
+    };
+    (v, p)
+}
+pub const fn pm_find_skip(mut p: Parser<'_>) -> (u32, Parser<'_>) {
+    let v = parser_method! {p, find_skip;
+        "ab" | "a" => 0u32,
+        "b" => 1,
+        _ => 9
+    };
+    (v, p)
+}
+pub const fn pm_rfind_skip(mut p: Parser<'_>) -> (u32, Parser<'_>) {
+    let v = parser_method! {p, rfind_skip;
+        "ab" | "a" => 0u32,
+        "b" => 1,
+        _ => 9
+    };
+    (v, p)
+}
+pub const fn pm_trim_start_matches(mut p: Parser<'_>) -> Parser<'_> {
+    parser_method! {p, trim_start_matches; "ab" | "a" | "b\u{e9}" };
+    p
+}
+pub const fn pm_trim_end_matches(mut p: Parser<'_>) -> Parser<'_> {
+    parser_method! {p, trim_end_matches; "ab" | "a" | "b\u{e9}" };
+    p
+}
